@@ -12,10 +12,10 @@ import MVoro.Model.Tess
 import MVoro.Model.Grid
 import MVoro.Gen.Grid
 import MVoro.Gen.Face
+import MVoro.Drv.Parse
+import MVoro.Drv.Geom
 
-open MVoro
-
-def toInts (ts : List String) : Option (List Int) := ts.mapM String.toInt?
+open MVoro MVoro.Drv
 
 def pts3 : List Int → List (I3 Int)
   | a :: b :: c :: rest => ⟨a, b, c⟩ :: pts3 rest
@@ -33,25 +33,6 @@ def opInsphere (args : List String) : String :=
                  Gen.signExtract_malachite g, Gen.signExtract_num_bigint g]
       s!"{Int.sign r} {g} {r} {Ref.orient a b c d} " ++ " ".intercalate (sg.map toString)
     | _ => "bad-op"
-
-/-- parse `k` float tokens -/
-def takeF (k : Nat) (ts : List String) : Option (List Rat × List String) :=
-  if ts.length < k then none else
-  match (ts.take k).mapM parseF? with
-  | some xs => some (xs, ts.drop k)
-  | none => none
-
-def takeV3 (ts : List String) : Option (Q3 × List String) :=
-  match takeF 3 ts with
-  | some ([a, b, c], rest) => some (⟨a, b, c⟩, rest)
-  | _ => none
-
-def takeV3s : Nat → List String → Option (List Q3 × List String)
-  | 0, ts => some ([], ts)
-  | n + 1, ts => do
-    let (v, ts) ← takeV3 ts
-    let (vs, ts) ← takeV3s n ts
-    pure (v :: vs, ts)
 
 /-- `dim periodic anchor width n gens…` -/
 def parseTessIn (ts : List String) : Option (Oracle.TessIn × List String) :=
@@ -185,6 +166,7 @@ def handle (line : String) : String :=
       | "cells" => opTess args
       | "routes" => opRoutes args
       | "iloc" => opIloc args
+      | "geom" => opGeom args
       | "addfar" => "-"
       | "partial" => "-"
       | _ => "unknown-op"
